@@ -57,16 +57,19 @@ MODULE_SRC = {
     "alpha/Ma.py": ZOPE_SRC,
     "alpha/mb.py": '"""Module mb."""\nfrom alpha.ma import A\nclass B(A):\n    "B."\nclass B2(A):\n    "B2."\nCONST = {"k": 1, "j": 2}\n',
     "alpha/.hidden": "not python\n",
-    "beta/__init__.py": '"""Beta package."""\n',
+    # no docstring: its summary counts the documented members per kind - a sub-package AND a module
+    "beta/__init__.py": 'from alpha.ma import A\n',
     "beta/sc/__init__.py": '"""Sub package."""\n',
     "beta/sc/md.py": '"""Module md."""\nfrom alpha.ma import A\nclass D(A):\n    "D."\n    x = 1\n    "x doc"\n',
     "beta/me.py": '"""Module me."""\nimport alpha.ma\nclass E(alpha.ma.A):\n    "E extends L{alpha.ma.A}."\ndef f(a, b=(1, 2)):\n    "f."\n',
     "beta/README.txt": "data\n",
-    "gamma.py": '"""Gamma module."""\nimport alpha.ma\nclass G(alpha.ma.A):\n    "G."\nv = 3\n"v doc"\n',
+    # epytext sections whose titles have no Latin letter or digit (ids and table of contents)
+    "gamma.py": '"""Gamma module.\n\n\u0420\u0430\u0437\u0434\u0435\u043b\n======\n\u03b1\u03b2\u03b3 text.\n\n'
+                '\u6982\u8981\n==\nMore text.\n\n\u2605\u2605\u2605\n===\nLast.\n"""\nimport alpha.ma\nclass G(alpha.ma.A):\n    "G."\nv = 3\n"v doc"\n',
 }
 # "small": a package with two modules whose names differ only in case, a package with a nested package, a module
 UNIVERSES = {
-    "small": ["alpha/__init__.py", "alpha/Ma.py", "alpha/ma.py", "beta/__init__.py", "beta/sc/__init__.py", "beta/sc/md.py",
+    "small": ["alpha/__init__.py", "alpha/Ma.py", "alpha/ma.py", "beta/__init__.py", "beta/me.py", "beta/sc/__init__.py",
               "gamma.py"],
     "large": ["alpha/__init__.py", "alpha/Ma.py", "alpha/ma.py", "alpha/mb.py", "alpha/.hidden",
               "beta/__init__.py", "beta/me.py", "beta/README.txt", "beta/sc/__init__.py", "beta/sc/md.py", "gamma.py"],
@@ -80,6 +83,12 @@ SITES = [
     ("subclasses:alpha.ma.A", "alpha.ma", BOTH("sorted"),
      [("alpha.ma", "alpha.A2"), ("alpha.ma", "alpha.A3"), ("alpha.mb", "alpha.mb.B"), ("alpha.mb", "alpha.mb.B2"),
       ("beta.me", "beta.me.E"), ("beta.sc.md", "beta.sc.md.D"), ("gamma", "gamma.G")]),
+    # summary of the undocumented package beta: "1/1 module, 1/1 package documented" - kinds sorted by their value
+    # (epydoc2stan.format_undocumented); shown in moduleIndex.html
+    ("undocumented-kinds:beta", "beta", BOTH("sorted"), [("beta.sc", "2:package"), ("beta.me", "1:module")]),
+    # sections of an epytext docstring whose titles have no Latin letter or digit, in document order (table of contents)
+    ("sections:gamma", "gamma", BOTH("list"),
+     [("gamma", "1:\u0420\u0430\u0437\u0434\u0435\u043b"), ("gamma", "2:\u6982\u8981"), ("gamma", "3:\u2605\u2605\u2605")]),
     # order in which _handleReExport moves the names into `alpha` = their order in allobjects (astbuilder._importAll)
     ("reexports:alpha", "alpha", BOTH("list"),
      [("alpha.ma", "alpha.A"), ("alpha.ma", "alpha.A2"), ("alpha.ma", "alpha.A3")]),
@@ -89,8 +98,11 @@ SITES = [
 ]
 # option variants of an input: (member order, SOURCE_DATE_EPOCH, enumerated for inputs with at most `upto` roots)
 EPOCH = 1000000000
-VARIANTS = {"quick": [("alphabetical", EPOCH, 9), ("source", 0, 1)],
-            "thorough": [("alphabetical", EPOCH, 9), ("source", 0, 2), ("source", EPOCH, 1), ("alphabetical", 0, 1)]}
+# (member order, SOURCE_DATE_EPOCH, upto, pages all|summary, --sidebar-expand-depth=2, explore listing permutations)
+DEFAULT_VARIANT = ("alphabetical", EPOCH, 9, "all", False, True)
+VARIANTS = {"quick": [DEFAULT_VARIANT, ("source", 0, 1, "all", True, True), ("alphabetical", EPOCH, 1, "summary", False, False)],
+            "thorough": [DEFAULT_VARIANT, ("source", 0, 2, "all", True, True), ("source", EPOCH, 1, "all", False, True),
+                         ("alphabetical", 0, 1, "all", True, True), ("alphabetical", EPOCH, 2, "summary", False, True)]}
 FIXED_PAGES = {"index.html": [0, 0], "moduleIndex.html": [0, 1], "classIndex.html": [0, 2], "nameIndex.html": [0, 3],
                "undoccedSummary.html": [0, 4], "all-documents.html": [0, 5]}
 
@@ -144,7 +156,7 @@ class Tree:
             elif k == "mod":
                 self.name_of[sub] = self.name_of[path] + "." + p.name[:-3]
 
-    def universe(self, sites: bool = True, variants: Sequence[Tuple[str, int, int]] = (("alphabetical", EPOCH, 9),)) -> Dict[str, Any]:
+    def universe(self, sites: bool = True, variants: Sequence[Tuple[Any, ...]] = (DEFAULT_VARIANT,)) -> Dict[str, Any]:
         out = []
         for name, mod, how, elems in (SITES if sites else []):
             if mod not in self.path_of_name:
@@ -154,12 +166,14 @@ class Tree:
             out.append({"name": name, "mod": list(self.path_of_name[mod]), "how": how,
                         "elems": [{"m": list(self.path_of_name[m]), "r": rank[e]} for m, e in present]})
         return {"roots": self.roots, "dirs": self.dirs, "sites": out,
-                "variants": [{"order": o, "epochset": True, "epoch": e, "upto": u} for o, e, u in variants]}
+                "variants": [{"order": o, "epochset": True, "epoch": e, "upto": u, "pages": pg, "expand": ex, "permute": pm}
+                             for o, e, u, pg, ex, pm in variants]}
 
     def site_element(self, site: str, rank: int) -> str:
         elems = next(el for name, _, _, el in SITES if name == site)
         present = sorted((e for m, e in elems if m in self.path_of_name), key=str.lower)
-        return present[rank - 1]
+        e = present[rank - 1]
+        return e.split(":", 1)[1] if re.match(r"\d:", e) else e        # "n:label" = rank given explicitly
 
     def entry_names(self, path: Sequence[int]) -> Dict[int, str]:
         d = self.dir_of_path[tuple(path)]
@@ -319,6 +333,19 @@ def first_diff(a: Path, b: Path) -> Dict[str, str]:
 SAMEPROC = ("import sys\nfrom pydoctor.driver import main\nwarm, args = sys.argv[1], sys.argv[2:]\n"
             "first = list(args)\nfirst[first.index('--html-output') + 1] = warm\nmain(first)\nsys.exit(main(args))\n")
 _TABLE_ID = re.compile(rb"\bid\d+\b")
+_SIDEBAR_ID = re.compile(rb"expandableItemId\d+")
+KF_SIDEBAR_IDS = "sidebar-item-ids-count-on-across-runs-of-a-process"
+
+
+def kf_sidebar_ids(w: Dict[str, Any]) -> bool:
+    """Known finding: ExpandableItem.last_ExpandableItem_id (pages/sidebar.py:398) is a class attribute, never reset: with
+    --sidebar-expand-depth > 1 the ids of the expandable sidebar items of a run continue where the previous pydoctor run
+    of the same process stopped.  Matches ONLY a run that was the second of its process compared with a first run, with
+    --sidebar-expand-depth=2, the same file set, whose every difference disappears when the numbers of these ids are masked."""
+    return (w.get("invariant") == "OutputIndependentOfEnvironment" and w.get("env", {}).get("outdir") == "sameproc"
+            and w.get("ref_env", {}).get("outdir") == "fresh" and w.get("project", {}).get("sidebar_expand") is True
+            and w.get("same_file_set") is True and w.get("n_differing", 0) > 0
+            and w.get("residual_after_sidebar_id_normalisation") == [])
 
 
 class Runner:
@@ -341,6 +368,10 @@ class Runner:
         cfg.write_text(json.dumps({"orders": orders, "salt": salt, "log": str(log), "under": str(src) + os.sep}))
         env = {k: v for k, v in os.environ.items() if not k.startswith("C18_")}
         var = var or {"order": "alphabetical", "epochset": True, "epoch": EPOCH}
+        if var.get("pages") == "summary":
+            extra_args = list(extra_args) + ["--html-summary-pages"]
+        if var.get("expand"):
+            extra_args = list(extra_args) + ["--sidebar-expand-depth=2"]
         env.pop("SOURCE_DATE_EPOCH", None)
         if var["epochset"]:
             env["SOURCE_DATE_EPOCH"] = str(var["epoch"])
@@ -407,6 +438,26 @@ def observed_sites(out: Path) -> Dict[str, Any]:
         if m:
             import calendar, time as _time
             obs["buildtime"] = [0, calendar.timegm(_time.strptime(m.group(1), "%Y-%m-%d %H:%M:%S"))]
+    f = out / "moduleIndex.html"
+    if f.exists():
+        t = f.read_text()
+        if "buildtime" not in obs:          # --html-summary-pages with a single root: no index.html
+            m = re.search(r" at (\d{4}-\d\d-\d\d \d\d:\d\d:\d\d)\.", t)
+            if m:
+                import calendar, time as _time
+                obs["buildtime"] = [0, calendar.timegm(_time.strptime(m.group(1), "%Y-%m-%d %H:%M:%S"))]
+        m = re.search(r"No package docstring; ([^<]*) documented", t)
+        if m:
+            obs["undocumented-kinds:beta"] = re.findall(r"\d+/\d+ ([a-z]+)", m.group(1))
+    f = out / ("gamma.html" if (out / "gamma.html").exists() and not (out / "gamma.html").is_symlink() else "index.html")
+    if f.exists():
+        obs["sections:gamma"] = re.findall(r'id="rst-toc-entry-\d+">([^<]+)<', f.read_text())
+    sid = []
+    for f in out.glob("*.html"):
+        if not f.is_symlink():
+            sid += [int(x) for x in re.findall(r'expandableItemId(\d+)', f.read_text())]
+    if sid:
+        obs["first_sidebar_id"], obs["sidebarbase"] = min(sid), 1 if min(sid) > 1 else 0
     f = out / "all-documents.html"
     if f.exists():
         ids = re.findall(r'<li id="([^"]+)"', f.read_text())
@@ -435,6 +486,7 @@ CONSTANTS MaxRoots = {maxroots}
           PermuteUpTo = {permute}
           EpochRule = "{epochrule}"
           SameProcUpTo = {sameproc}
+          SidebarIds = "{sidebarids}"
           Listing = "{listing}"
 CONSTRAINT Collect
 CONSTRAINT Emit
@@ -443,8 +495,8 @@ POSTCONDITION Post
 
 
 def tlc_enum(ctx: Ctx, tree: Tree, maxroots: int, listing: str = "sorted", count: bool = True, coverage: bool = False,
-             reuse: int = 9, sites_as_set: bool = False, variants: Sequence[Tuple[str, int, int]] = (("alphabetical", EPOCH, 9),),
-             epochrule: str = "is_set", permute: int = 9, sameproc: int = 0):
+             reuse: int = 9, sites_as_set: bool = False, variants: Sequence[Tuple[Any, ...]] = (DEFAULT_VARIANT,),
+             epochrule: str = "is_set", permute: int = 9, sameproc: int = 0, sidebarids: str = "process_counter"):
     f = ctx.scratch / f"universe_{tree.src.name}.json"
     uni = tree.universe(variants=variants)
     if sites_as_set:
@@ -452,7 +504,7 @@ def tlc_enum(ctx: Ctx, tree: Tree, maxroots: int, listing: str = "sorted", count
             st["how"] = BOTH("set")
     f.write_text(json.dumps(uni))
     r = ctx.tlc("Determinism", CFG.format(maxroots=maxroots, source="enum", listing=listing, reuse=reuse, epochrule=epochrule, permute=permute,
-                                            sameproc=sameproc), workers=1,
+                                            sameproc=sameproc, sidebarids=sidebarids), workers=1,
                 env={"C18_UNIVERSE": str(f)}, check=True, timeout=1500, count=count, coverage=coverage)
     post = [x for x in r.printed if "dependent" in x]
     recs = [x for x in r.printed if "pid" in x]
@@ -473,13 +525,19 @@ def compare_with_ref(ref_out: Path, ref_digest: Dict[str, str], out: Path, name_
         return None
     differing = sorted(k for k in set(dg) | set(ref_digest) if dg.get(k) != ref_digest.get(k))
     res = residual(ref_out, out, differing, name_ref or "", name_out or "")
-    ids_left = []
+    ids_left, sid_left = [], []
     for rel in differing:
         a, b = ref_out / rel, out / rel
-        if a.is_symlink() or b.is_symlink() or not a.is_file() or not b.is_file() \
-                or _TABLE_ID.sub(b"idN", a.read_bytes()) != _TABLE_ID.sub(b"idN", b.read_bytes()):
+        if a.is_symlink() or b.is_symlink() or not a.is_file() or not b.is_file():
             ids_left.append(rel)
-    return {"residual_after_table_id_normalisation": ids_left[:12], "differing_files": differing[:12], "n_differing": len(differing), "same_file_set": set(dg) == set(ref_digest),
+            sid_left.append(rel)
+            continue
+        ba, bb = a.read_bytes(), b.read_bytes()
+        if _TABLE_ID.sub(b"idN", ba) != _TABLE_ID.sub(b"idN", bb):
+            ids_left.append(rel)
+        if _SIDEBAR_ID.sub(b"expandableItemIdN", ba) != _SIDEBAR_ID.sub(b"expandableItemIdN", bb):
+            sid_left.append(rel)
+    return {"residual_after_table_id_normalisation": ids_left[:12], "residual_after_sidebar_id_normalisation": sid_left[:12], "differing_files": differing[:12], "n_differing": len(differing), "same_file_set": set(dg) == set(ref_digest),
             "observed_projname": [name_ref, name_out], "residual_after_projname_normalisation": res[:12],
             "first_difference": first_diff(ref_out / differing[0], out / differing[0]) if differing else {},
             "first_residual_difference": first_diff(ref_out / res[0], out / res[0]) if res else {}}
@@ -544,6 +602,9 @@ def realise_enumeration(ctx: Ctx, runner: Runner, tree: Tree, uname: str, recs: 
         if obs.get("idbase") is not None and obs["idbase"] != rec["idbase"]:
             bad["table_ids"] = {"model": "start at id1" if rec["idbase"] == 0 else "continue after the previous run of the process",
                                 "real_first_id": obs.get("first_table_id")}
+        if obs.get("sidebarbase") is not None and obs["sidebarbase"] != rec["sidebarbase"]:
+            bad["sidebar_ids"] = {"model": "start at 1" if rec["sidebarbase"] == 0 else "continue after the previous run of the process",
+                                  "real_first_id": obs.get("first_sidebar_id")}
         if obs.get("buildtime") != rec["buildtime"]:
             bad["buildtime"] = {"model": rec["buildtime"], "real": obs.get("buildtime")}
         kinds = "/".join({1: "modules", 2: "packages"}[k] for k in rec.get("rootkinds", []))
@@ -603,14 +664,16 @@ def judge_enumeration(ctx: Ctx, tree: Tree, uname: str, res: Dict[str, Any], dep
         ctx.traces += 1
         ref = res["refs"][rec["pid"]]
         project = {"roots": [tree.root_name[x] for x in rec["roots"]], "named": rec["named"], "universe": uname,
-                   "member_order": rec["var"]["order"], "source_date_epoch": rec["var"]["epoch"]}
+                   "member_order": rec["var"]["order"], "source_date_epoch": rec["var"]["epoch"],
+                   "pages": rec["var"]["pages"], "sidebar_expand": rec["var"]["expand"]}
         if r["diff"] is not None:
             dependent_real.add(rec["pid"])
             w = {"invariant": "OutputIndependentOfEnvironment", "origin": "enum", "project": project,
                  "ref_env": env_summary(tree, ref["rec"], ref["env"]), "env": env_summary(tree, rec, r["env"]),
                  **r["diff"]}
             ctx.violation({**w, "key": f"{uname}:{project['roots']}:{project['named']}:" +
-                                       ("table-ids-only" if r["diff"].get("residual_after_table_id_normalisation") == [] and r["diff"]["same_file_set"]
+                                       ("sidebar-ids-only" if r["diff"].get("residual_after_sidebar_id_normalisation") == [] and r["diff"]["same_file_set"]
+                                        else "table-ids-only" if r["diff"].get("residual_after_table_id_normalisation") == [] and r["diff"]["same_file_set"]
                                         else "name-only" if not r["diff"]["residual_after_projname_normalisation"] and r["diff"]["same_file_set"]
                                         else ",".join(r["diff"]["residual_after_projname_normalisation"][:3] or r["diff"]["differing_files"][:3]))})
         if r["drift"]:
@@ -682,6 +745,8 @@ def observed_runs(ctx: Ctx, runner: Runner, pool: ThreadPoolExecutor, rng: rando
 def run(ctx: Ctx) -> int:
     rng = random.Random(ctx.seed)
     runner = Runner(ctx.scratch)
+    ctx.register_matcher(KF_SIDEBAR_IDS, kf_sidebar_ids)
+    sidebar_variant = None
     pool = ThreadPoolExecutor(max_workers=max(2, min(NCPU - 2, 14)))
     plans = [("small", 2, 1)] if ctx.quick else [("small", 3, 9), ("large", 1, 9)]
     nseeds = 64 if ctx.quick else 128
@@ -693,7 +758,7 @@ def run(ctx: Ctx) -> int:
             src = ctx.scratch / f"src_{uname}"
             materialise(src, UNIVERSES[uname])
             tree = Tree(src, sorted({f.split("/")[0] for f in UNIVERSES[uname]}))
-            variants = VARIANTS[ctx.tier] if uname == "small" else VARIANTS["quick"][:1]
+            variants = VARIANTS[ctx.tier] if uname == "small" else [DEFAULT_VARIANT]
             permute = 1 if ctx.quick else 9
             sameproc = 1 if uname == "small" else 0
             recs, dep_model, r = tlc_enum(ctx, tree, maxroots, coverage=ctx.quick, reuse=reuse, variants=variants,
@@ -709,6 +774,17 @@ def run(ctx: Ctx) -> int:
                 real = x["guess"] if x["guess"] is not None else PROJECT_NAME
                 if model != real or (m["named"] and x["guess"] is not None):
                     x["drift"] = {**(x["drift"] or {}), "projname": {"model": model, "real": x["guess"]}}
+            # which transcription of the sidebar item counter does the code follow (process-wide as it is, or per run)?
+            sp = [x for x in res["runs"] if x["rec"]["outdir"] == "sameproc" and x["rec"]["var"]["expand"]]
+            if sp and all("sidebar_ids" in (x["drift"] or {}) for x in sp):
+                _, dep_model, _ = tlc_enum(ctx, tree, maxroots, reuse=reuse, variants=variants, permute=permute,
+                                           sameproc=sameproc, sidebarids="per_run", count=False)
+                for x in sp:
+                    del x["drift"]["sidebar_ids"]
+                    x["drift"] = x["drift"] or None
+                sidebar_variant = "per_run"
+            elif sp:
+                sidebar_variant = "process_counter"
             j = judge_enumeration(ctx, tree, uname, res, dep_model)
             j["terminal_states"] = len(recs)
             j["projects"] = len({x["pid"] for x in recs})
@@ -722,6 +798,7 @@ def run(ctx: Ctx) -> int:
                                  f"choice dependent {j['dependent_model']}")
         ctx.exhaustive = True
         ctx.extra["enumerations"] = summary
+        ctx.extra["sidebar_id_variant_followed_by_code"] = sidebar_variant
 
         # ---- model-level negative control: with the listing NOT sorted the register mechanism must report dependence
         src = ctx.scratch / "src_small"
@@ -729,7 +806,7 @@ def run(ctx: Ctx) -> int:
         _, dep_sorted, _ = tlc_enum(ctx, tree, 1, "sorted", count=False)
         _, dep_raw, _ = tlc_enum(ctx, tree, 1, "raw", count=False)
         _, dep_sets, _ = tlc_enum(ctx, tree, 1, "sorted", count=False, reuse=0, sites_as_set=True)
-        _, dep_epoch, _ = tlc_enum(ctx, tree, 1, "sorted", count=False, reuse=0, variants=[("alphabetical", 0, 1)],
+        _, dep_epoch, _ = tlc_enum(ctx, tree, 1, "sorted", count=False, reuse=0, variants=[("alphabetical", 0, 1, "all", False, True)],
                                    epochrule="truthy")
         ctx.extra["negative_control_model"] = {"dependent_when_epoch_zero_counts_as_unset": sorted(dep_epoch),
                                                "dependent_with_sorted_listing": sorted(dep_sorted),
@@ -756,14 +833,14 @@ def run(ctx: Ctx) -> int:
                 listing.append([{"id": ids[n], "kind": d["ents"][ids[n]]["kind"]} for n in byd[dp] if n in ids])
             rid = {v: k for k, v in tree.root_name.items()}
             fruns.append({"reg": r["pi"] + 1, "u": tree.universe(sites=False), "roots": [rid[n] for n in r["pr"]["roots"]],
-                          "named": r["pr"]["named"], "var": {"order": "alphabetical", "epochset": True, "epoch": EPOCH, "upto": 9},
+                          "named": r["pr"]["named"], "var": {"order": "alphabetical", "epochset": True, "epoch": EPOCH, "upto": 9, "pages": "all", "expand": False, "permute": True},
                           "setOrder": [rid[n] for n in r["setorder"]],
                           "listing": listing, "outdir": r["outdir"]})
         f = ctx.scratch / "runs.json"
         f.write_text(json.dumps(fruns))
         file_drift = 0
         r2 = ctx.tlc("Determinism", CFG.format(maxroots=0, source="file", listing="sorted", reuse=9, epochrule="is_set", permute=9,
-                                            sameproc=0), workers=1,
+                                            sameproc=0, sidebarids="process_counter"), workers=1,
                      env={"C18_RUNS": str(f)}, check=True, timeout=1500)
         got = {x["pid"]: x for x in r2.printed if "pid" in x}
         if len(got) != len(fruns):
@@ -846,7 +923,8 @@ def replay(ctx: Ctx, path: str) -> int:
                 shutil.copytree(outs[0][0], out, symlinks=True)
             o = runner.run(src, args, pr["named"], e["hash_seed"], orders, e.get("listing_salt", i), out,
                            var={"order": pr.get("member_order", "alphabetical"), "epochset": True,
-                                "epoch": pr.get("source_date_epoch", EPOCH)})
+                                "epoch": pr.get("source_date_epoch", EPOCH), "pages": pr.get("pages", "all"),
+                                "expand": pr.get("sidebar_expand", False)}, sameproc=e.get("outdir") == "sameproc")
             outs.append((out, o))
         diff = compare_with_ref(outs[0][0], tree_digest(outs[0][0]), outs[1][0], outs[0][1]["guess"] or PROJECT_NAME,
                                 outs[1][1]["guess"] or PROJECT_NAME)
